@@ -60,7 +60,7 @@ def run_c12(args, leg, sb):
                 # the same client renewing: ciaddr filled in, no requested-address / server-id options, same flags
                 if ack and ack["options"].get(53) == b"\x05" and n % 2 == 0:
                     xid += 1
-                    frames, ack2 = dhcplib.exchange(sb.client, mac, 3, xid, options=opts, flags=fl, ciaddr=ack["yiaddr"])
+                    frames, ack2 = dhcplib.exchange(sb.client, mac, 3, xid, options=opts, flags=fl, ciaddr=ack["yiaddr"], src_ip=ack["yiaddr"] if n % 4 == 0 else "0.0.0.0")
                     ev = {"kind": "REQUEST", "renewing": True, "flags": fl, "xid": xid, "chaddr_hex": mac.hex(), "server_ip": dhcplib.SERVER_V4,
                           "frame_hex": frames[0].hex() if frames else None}
                     if long_opt:
